@@ -37,6 +37,7 @@ def build(chk):
     c_efficiency(chk)
     c_template(chk)
     c_template_efficiency(chk)
+    c_template_integrate(chk)
 
 
 def c_helpers(chk):
@@ -294,6 +295,46 @@ def c_efficiency(chk):
     rets = sel(paths)
     if rets:
         chk.canary("efficiencyFactor.sum", rets[-1].pc, Eq(rets[-1].value, 1), func=fn)
+
+
+def c_template_integrate(chk):
+    """Template integratePlasma: what solve_ivp is given - the right-hand side _dxiAndWdv with the wave flag, integration in the plasma velocity
+    from v0 down to 1e-10, initial state (xi, w) = (vw, w0), the front event (terminal exactly for shock waves), relative tolerance rtol/10."""
+    from wgvc.interp import Closure
+    TQ = "hydrodynamicsTemplateModel.HydrodynamicsTemplateModel"
+    fn = f"{TQ}.integratePlasma"
+    v0, vw, w0 = real("v0"), real("vw"), real("w0")
+    DX = specfun("dxiAndWdv0"), specfun("dxiAndWdv1")
+    for flag in (True, False):
+        reg = {"HydrodynamicsTemplateModel._dxiAndWdv": lambda it, so, a, k: (it.event(kind="contract-call", name="_dxiAndWdv", args=list(a), kwargs=dict(k)),
+                                                                              [DX[0](a[0], a[1][0], a[1][1]), DX[1](a[0], a[1][0], a[1][1])])[1]}
+
+        def mk(it, flag=flag):
+            it.assume(Gt(v0, 0))
+            return make_template(), [v0, vw, w0] + ([] if flag else [False]), {}, {}
+        rets = sel(chk.summarize("hydrodynamicsTemplateModel", "HydrodynamicsTemplateModel.integratePlasma", mk, registry=reg, externals=stubs.EXTERNALS,
+                                 record=flag))
+        tag = "shock" if flag else "rarefaction"
+        if len(rets) != 1:
+            chk.undecided.append(f"template integratePlasma[{tag}]: {len(rets)} returning paths")
+            continue
+        p = rets[0]
+        ivps = [e for e in p.events if e.get("kind") == "solve_ivp"]
+        if len(ivps) != 1:
+            chk.undecided.append("template integratePlasma: expected one solve_ivp call")
+            continue
+        e = ivps[0]
+        rhs_calls = [c for c in p.events if c.get("name") == "_dxiAndWdv"]
+        flag_passed = bool(rhs_calls) and all((list(c["args"]) + [c["kwargs"].get("shockWave")])[2] is flag for c in rhs_calls)
+        ev = e["events"]
+        terminal = getattr(ev, "attrs", {}).get("terminal") if isinstance(ev, Closure) else None
+        chk.vc(f"template.integratePlasma.{tag}.call.{i if False else 0}", p.pc,
+               And(Eq(e["span"][0], v0), Eq(e["span"][1], sym.R(1, 10**10)), Eq(e["y0"][0], vw), Eq(e["y0"][1], w0),
+                   Eq(e["rtol"] * 10, real("rtol")), Eq(e["atol"], 0),
+                   sym.to_sym(bool(flag_passed and isinstance(ev, Closure) and ev.qualname.endswith("<event>") and terminal is flag))), func=fn)
+        chk.vc(f"template.integratePlasma.{tag}.rhs.0", p.pc,
+               And(Eq(e["rhs"][0], DX[0](e["generic_v"], e["generic_y"][0], e["generic_y"][1])),
+                   Eq(e["rhs"][1], DX[1](e["generic_v"], e["generic_y"][0], e["generic_y"][1]))), func=fn)
 
 
 def c_template_efficiency(chk):
